@@ -597,6 +597,14 @@ func (fc *FnCtx) dryRunLoop(h *ssa.BasicBlock, st *State, body map[*ssa.BasicBlo
 	for k, v := range vc.ufDecl {
 		snapUF[k] = v
 	}
+	snapRefAx := map[string]bool{}
+	for k, v := range vc.refAx {
+		snapRefAx[k] = v
+	}
+	snapStores := map[Term]storeRec{}
+	for k, v := range vc.stores {
+		snapStores[k] = v
+	}
 	vc.dry++
 	d := fc.cloneForDry()
 	d.dryHeader = h
@@ -622,6 +630,8 @@ func (fc *FnCtx) dryRunLoop(h *ssa.BasicBlock, st *State, body map[*ssa.BasicBlo
 	vc.adef = vc.adef[:snapAdef]
 	vc.aglobal = vc.aglobal[:snapAdef]
 	vc.names = snapNames
+	vc.stores = snapStores
+	vc.refAx = snapRefAx
 	vc.colDecl = snapColDecl
 	vc.ufDecl = snapUF
 	var out []string
